@@ -1,7 +1,9 @@
 //! scverif - conformance harness binding the TLA+ specifications in /verif/spec to saorsa-core.
 //! Usage: scverif <module> <command> [key=value ...]
 mod common;
+mod alloc;
 mod c02;
+mod c06;
 
 fn main() {
     let args: Vec<String> = std::env::args().collect();
@@ -12,6 +14,7 @@ fn main() {
     let kv = common::Args::parse(&args[3..]);
     let rc = match (args[1].as_str(), args[2].as_str()) {
         ("c02", "drive") => c02::drive(&kv),
+        ("c06", "drive") => c06::drive(&kv),
         (m, c) => {
             eprintln!("unknown module/command {m} {c}");
             2
